@@ -15,7 +15,8 @@ T_QUICK, T_THOROUGH = 75, 1500
 FLOORS = {"graphs": 800, "builds": 150, "with_fieldless": 150, "cyclic": 100, "order_edges_checked": 5000,
           "guards_checked": 4000, "duplicate_roots": 100, "with_depends_on": 200, "kernels_built_and_called": 50,
           "with_hybrid_depends_on": 100, "late_edges": 100, "sorted_once_before_cycle": 20,
-          "stale_same_named_class_listed_first": 60, "with_depends_on_on_array_or_union": 100}
+          "stale_same_named_class_listed_first": 60, "with_depends_on_on_array_or_union": 100, "anonymous_array_class_and_named_subclass": 40,
+          "kernels_returning_a_class_not_listed": 30}
 RULE = ("random dependency DAGs of 2-10 classes of every kind (structs with nested/array/Ref/UnionRef fields, field-less "
         "structs, hybrid classes, array classes, union references, Ref types, declared _depends_on edges on structs and on "
         "hybrid classes naming plain and hybrid classes), random root subsets, orders "
@@ -115,6 +116,14 @@ def gen_graph(rng):
                 rn = next((n for n in nodes if n.name == rf.__name__), None) or add("R", rf, [d], rf.__name__)
                 an = add("A", type(f"{pre}AR{i}", (rf[rng.choice([3, slice(None)])],), {}), [rn])
                 an.array_of_refs = True
+            elif cands and rng.random() < 0.2:
+                # the automatically named array class itself AND a named class derived from that very class object
+                d = rng.choice(cands)
+                base = d.cls[rng.choice([3, slice(None)])]
+                if not any(n.name == base.__name__ for n in nodes):
+                    bn = add("A", base, [d], base.__name__)
+                    dn = add("A", type(f"{pre}D{i}", (base,), {}), [d])
+                    bn.anon_base = dn.derived = True
             elif cands and rng.random() < 0.7:
                 d = rng.choice(cands)
                 ns, extra = {}, []
@@ -240,6 +249,8 @@ def run_case(w, rng):
         w.count("with_fieldless")
     if any(getattr(n, "has_dep_on", False) for n in closure(roots).values()):
         w.count("with_depends_on")
+    if any(getattr(n, "anon_base", False) for n in closure(roots).values()) and any(getattr(n, "derived", False) for n in closure(roots).values()):
+        w.count("anonymous_array_class_and_named_subclass")
     if any(getattr(n, "nonstruct_dep_on", False) for n in closure(roots).values()):
         w.count("with_depends_on_on_array_or_union")
         if rng.random() < 0.5:
@@ -314,7 +325,18 @@ def run_case(w, rng):
             kern = {}
             if root is not None and rng.random() < 0.6:
                 kern = root.cls._gen_kernels()
-            ctx().add_kernels(kernels=kern, extra_classes=list(root_classes), extra_compile_args=("-O0", "-w"), extra_link_args=())
+            srcs = []
+            xc = list(root_classes)
+            if root is not None and twin is None and rng.random() < 0.35:
+                # a kernel that mentions a class only as its return type; the class is NOT passed in extra_classes
+                ct = root.cls._c_type
+                fnm = f"xv_as_{root.name}"
+                srcs = [f"/*gpufun*/ {ct} {fnm}(/*gpuglmem*/ int8_t* b){{ return ({ct}) b; }}"]
+                kern = dict(kern)
+                kern[fnm] = xo.Kernel(c_name=fnm, args=[xo.Arg(xo.Int8, pointer=True, name="b")], ret=xo.Arg(root.cls))
+                xc = [c_ for c_ in xc if c_ is not root.cls]
+                w.count("kernels_returning_a_class_not_listed")
+            ctx().add_kernels(sources=srcs, kernels=kern, extra_classes=xc, extra_compile_args=("-O0", "-w"), extra_link_args=())
             w.count("builds")
             if kern and root.kind == "A":
                 nm = f"{root.name}_len"
